@@ -30,7 +30,7 @@ def run_c05(tier, seed, out):
     for name, src, dst, ln, bps, lat in LINK_CFGS:
         model(out, "MC_Link.tla", LINK_CFG % (src, dst, ln, lat, bps, 4 if tier == "quick" else 6), name, workers=8, timeout=900)
     log("[C05] real Networks / Pci taps under virtual time, validated by TraceLink.tla")
-    drive_validate(out, "C05", HV_CORE, "link-drive", "TraceLink", ["--runs", "600" if tier == "quick" else "8000"], tier, seed,
+    drive_validate(out, "C05", HV_CORE, "link-drive", "TraceLink", ["--runs", "600" if tier == "quick" else "30000"], tier, seed,
                    "link scenarios")
     out.cov["rule"] = ("1-2 networks (MTU 60/100/1500, constant/variable latency, unlimited/constant/variable throughput), 2-5 machines with 1-2 taps "
                        "(also two taps of one machine on one network), 1-7 frames to a tap / unknown address / broadcast with lengths mtu-1, mtu, mtu+1, "
@@ -55,7 +55,7 @@ def run_c04(tier, seed, out):
     log("[C04] model checking Demux.tla (every bind history; two-stage lookup of the code = the property's endpoint rule)")
     model(out, "Demux.tla", DEMUX_CFG % (4 if tier == "quick" else 5), "demux", workers=8, timeout=900)
     log("[C04] real Udp/Ipv4/(Arp)/Pci machines with up to 3 applications each, validated by TraceDemux.tla")
-    drive_validate(out, "C04", HV_CORE, "udp-drive", "TraceDemux", ["--runs", "800" if tier == "quick" else "12000"], tier, seed,
+    drive_validate(out, "C04", HV_CORE, "udp-drive", "TraceDemux", ["--runs", "800" if tier == "quick" else "40000"], tier, seed,
                    "datagram scenarios")
     out.cov["rule"] = ("2-4 machines x 3 applications, 0-4 binds per machine over {own address 1, own address 2, 0.0.0.0, 255.255.255.255} x 3 ports "
                        "(duplicates included), 1-6 datagrams to bound / unbound / foreign / nobody's endpoints, payload 0, 1, 20, max-1, max, max+1, "
@@ -85,7 +85,7 @@ def run_c06(tier, seed, out):
     for sub, drops, calls in confs:
         model(out, "MC_Arp.tla", ARP_CFG % (sub, drops, calls), "arp-%s-%d-%s" % (sub, drops, calls), workers=8, timeout=900)
     log("[C06] real Arp instances with a seeded loss plan over ARP frames, validated by TraceArp.tla")
-    drive_validate(out, "C06", HV_CORE, "arp-drive", "TraceArp", ["--runs", "800" if tier == "quick" else "12000"], tier, seed,
+    drive_validate(out, "C06", HV_CORE, "arp-drive", "TraceArp", ["--runs", "800" if tier == "quick" else "40000"], tier, seed,
                    "resolution scenarios")
     out.cov["rule"] = ("2-6 machines claiming 0-2 addresses, byte-aligned subnet masks /0../32 with claimed and unclaimed gateways, 1-6 resolve calls "
                        "(concurrent, repeated, own address, unclaimed address) at 0 / 0.15 / 0.5 / 1.9 / 2.1 s, latency 0/1/5 ms, ARP frame loss 0/30/60/85 % or an exact plan (only the k-th request of a resolver passes, k = 1, 2, 9, 10, none); "
@@ -124,7 +124,7 @@ def run_c13(tier, seed, out):
         model(out, "MC_Lifecycle.tla", LIFE_CFG % (beh, req), "life-%s-%s" % (beh, req), workers=4, timeout=600)
     log("[C13] real run_internet_with_timeout runs (scripted + built-in protocols) validated by TraceLifecycle.tla")
     build_harness(("hv-sim",))
-    drive_validate_resumable(out, "C13", HV_SIM, "life-drive", "TraceLifecycle", 800 if tier == "quick" else 12000, seed, "lifecycle scenarios")
+    drive_validate_resumable(out, "C13", HV_SIM, "life-drive", "TraceLifecycle", 800 if tier == "quick" else 30000, seed, "lifecycle scenarios")
     out.cov["rule"] = ("0-4 machines with 0-3 scripted applications (initialisation 0 / 1 ms / 20 ms / 1 s / 2 s; afterwards nothing, frames, a shutdown request, "
                        "a burst of 2/17/20 requests with distinct statuses, or hanging forever; some ask for a shutdown during their initialisation, some never finish it) mixed with Pci, Udp+Ipv4(+Arp) and SendMessage / Capture / Forward; "
                        "timeouts 10 ms, 50 ms, 1 s, 3 s; distinct counted as runs")
@@ -154,7 +154,7 @@ def run_c16(tier, seed, out):
         model(out, "MC_Router.tla", ROUTER_CFG % (rt, hosts, 4 if tier == "quick" else 5), "router-%s-%s" % (rt, hosts), workers=8, timeout=900)
     log("[C16] real ArpRouter topologies (line, star, ring) validated by TraceRouter.tla")
     build_harness(("hv-sim",))
-    drive_validate_resumable(out, "C16", HV_SIM, "router-drive", "TraceRouter", 500 if tier == "quick" else 8000, seed, "routing scenarios")
+    drive_validate_resumable(out, "C16", HV_SIM, "router-drive", "TraceRouter", 500 if tier == "quick" else 25000, seed, "routing scenarios")
     out.cov["rule"] = ("lines of 1-3 routers, stars over 2-4 subnets, rings of 3 routers; 1-2 hosts per subnet; routes: shortest path, one entry missing, one entry "
                        "redirected, or chasing routes for an unknown subnet (loops of 2 and 3 routers); 1-5 datagrams to existing hosts, nobody's address, a subnet "
                        "that does not exist; every IPv4 frame on every network recorded with its TTL; distinct counted as runs")
@@ -176,7 +176,7 @@ def run_c20(tier, seed, out):
     log("[C20] model checking Dns.tla (lookups, cache, queries and replies in any delivery order)")
     model(out, "MC_Dns.tla", DNS_CFG % (4 if tier == "quick" else 5), "dns", workers=8, timeout=900)
     log("[C20] real DnsServer / DnsClients with delayed frames validated by TraceDns.tla")
-    drive_validate_resumable(out, "C20", HV_CORE, "dns-drive", "TraceDns", 300 if tier == "quick" else 5000, seed, "lookup scenarios")
+    drive_validate_resumable(out, "C20", HV_CORE, "dns-drive", "TraceDns", 300 if tier == "quick" else 20000, seed, "lookup scenarios")
     tp = os.path.join(workdir("fn-C20"), "dns-long.ndjson")
     args = ["dns-drive", "--seed", str(seed + 1), "--long-names", "--out", tp]
     n = 80 if tier == "quick" else 1000
